@@ -6,6 +6,8 @@
  E3b with a good stream, every loop that looks at the next character consumes at least one character per
      iteration (case split over the characters the loop and its consumers distinguish; consumers summarised)
  R3  no process-terminating call is reachable from the reader/writer entry points beyond the frozen list
+ R5  every call-graph cycle on the reader/writer path is classified by what bounds its depth (frozen table with reasons);
+     a cycle bounded only by the input is a finding, an unlisted recursive function is unclassified
  R4  a node that a function has handed to a container (the callee stores the parameter; fixed point over the call graph) is
      not deleted by that function on any consistent path afterwards (path-sensitive over flag variables)
 """
@@ -30,7 +32,7 @@ EXPLANATION = (
     "a frozen list. (R4) for every `delete` of a local pointer in the runtime libraries: on no path that is consistent in "
     "its flag variables does the function first pass the pointer to a parameter that is stored (least fixed point of "
     "'assigned to a member/element/global or passed on to a stored parameter', virtual calls expanded) and then delete it "
-    "without taking it back or re-assigning it. (E2t) every strncpy into a fixed char array with a constant size is followed, on every path to the next use of the array, by a store of 0 at an index not above that size - or cannot need one (literal source shorter than the size; zero-initialised storage whose tail is never written; a constructor-established terminator beyond the size; identifier sources under the identifier-length assumption). Not decided: heap lifetime beyond R4, integer overflow, recursion depth, time proportional to input, "
+    "without taking it back or re-assigning it. (E2t) every strncpy into a fixed char array with a constant size is followed, on every path to the next use of the array, by a store of 0 at an index not above that size - or cannot need one (literal source shorter than the size; zero-initialised storage whose tail is never written; a constructor-established terminator beyond the size; identifier sources under the identifier-length assumption). (R5) every call-graph cycle reachable from the entry points (Tarjan over the resolved call graph with class-hierarchy expansion) consists of functions classified in tables/c05_recursion.json by what bounds the depth (schema structure, constant, dead branch, or only the input); input-bounded cycles and unlisted recursive functions fail. Not decided: heap lifetime beyond R4, integer overflow, the exact depth at which an input-bounded recursion exhausts the stack, time proportional to input, "
     "judy.c / sc_hash.cc internals (vendored containers with structural invariants).")
 
 ENTRIES = ["STEPfile::ReadExchangeFile", "STEPfile::AppendExchangeFile", "STEPfile::ReadWorkingFile",
@@ -163,6 +165,82 @@ def r4_handed_then_deleted(prog, res):
     res.floor("R4.handed_over_not_deleted", "delete sites whose pointer is also handed over in the same function", nf, 2)
 
 
+def r5_recursion(prog, res, reachable):
+    """Every call-graph cycle reachable from the entry points is classified by what bounds its depth (table
+    tables/c05_recursion.json, one reason per function).  A cycle that contains a function of class `input` - only the file
+    bounds the depth - can exhaust the stack; a recursive function that is not in the table is unclassified."""
+    tab = json.load(open(os.path.join(os.path.dirname(__file__), "..", "tables", "c05_recursion.json")))["functions"]
+    cg = prog.callgraph()
+    cg = cg[0] if isinstance(cg, tuple) else cg
+    index, low, on, st, sccs, counter = {}, {}, set(), [], [], [0]
+    for root in sorted(reachable):
+        if root in index:
+            continue
+        work = [(root, iter(sorted(w for w in cg.get(root, ()) if w in reachable)))]
+        index[root] = low[root] = counter[0]
+        counter[0] += 1
+        st.append(root)
+        on.add(root)
+        while work:
+            v, it = work[-1]
+            adv = False
+            for w in it:
+                if w not in index:
+                    index[w] = low[w] = counter[0]
+                    counter[0] += 1
+                    st.append(w)
+                    on.add(w)
+                    work.append((w, iter(sorted(x for x in cg.get(w, ()) if x in reachable))))
+                    adv = True
+                    break
+                elif w in on:
+                    low[v] = min(low[v], index[w])
+            if adv:
+                continue
+            work.pop()
+            if work:
+                low[work[-1][0]] = min(low[work[-1][0]], low[v])
+            if low[v] == index[v]:
+                comp = []
+                while True:
+                    w = st.pop()
+                    on.discard(w)
+                    comp.append(w)
+                    if w == v:
+                        break
+                sccs.append(comp)
+    byk = {}
+    for f in prog.all_functions():
+        byk.setdefault(f.key, f)
+    n = 0
+    seen_keys = set()
+    for comp in sccs:
+        if len(comp) == 1 and comp[0] not in cg.get(comp[0], ()):
+            continue
+        fs = [byk[k] for k in comp if k in byk and byk[k].component != "test"]
+        if not fs:
+            continue
+        names = sorted({f.name for f in fs})
+        n += 1
+        unknown = [x for x in names if x not in tab]
+        inputs = [x for x in names if tab.get(x, {}).get("class") == "input"]
+        rep = inputs[0] if inputs else names[0]
+        key = "R5|recursion|%s" % rep
+        if key in seen_keys:
+            continue
+        seen_keys.add(key)
+        f0 = [f for f in fs if f.name == rep][0]
+        if unknown:
+            res.add("R5.recursion_depth_bounded", "R5|recursion|unclassified|%s" % unknown[0], [f for f in fs if f.name == unknown[0]][0].where(), False,
+                    "%s is recursive (cycle: %s) and not classified in tables/c05_recursion.json: what bounds its depth?" % (unknown[0], ", ".join(names)[:200]))
+            continue
+        ok = not inputs
+        res.add("R5.recursion_depth_bounded", key, f0.where(), ok,
+                "cycle {%s}: %s" % (", ".join(names)[:160], "; ".join(sorted({tab[x]["why"] for x in names}))[:400]) if ok else
+                "the depth of the cycle {%s} is bounded only by the input: %s" % (", ".join(names)[:300], tab[inputs[0]]["why"]))
+    res.floor("R5.recursion_depth_bounded", "call-graph cycles on the reader/writer path", n, 20)
+
+
 def run(prog, res, tier):
     reachable, keys = memsafe.reach(prog, CFG)
     if len(keys) < 8:
@@ -178,5 +256,6 @@ def run(prog, res, tier):
     side_conditions(prog, res)
     memsafe.run_terminators(prog, res, CFG, reachable)
     r4_handed_then_deleted(prog, res)
+    r5_recursion(prog, res, reachable)
     nt = memsafe.run_strncpy_terminated(prog, res, CFG, reachable)
     res.floor("E2t.strncpy_terminated", "strncpy calls into fixed arrays with a constant size", nt, 1)
